@@ -383,9 +383,37 @@ func (g *gen) human() {
 	}
 }
 
+// humanCross presents the human id of an existing device under ANOTHER
+// profile's id: it must never lead to that device.
+func (g *gen) humanCross() {
+	w := g.w
+	for _, d := range append([]*devSpec(nil), w.Devs...) {
+		if d.HumanLower == "" {
+			continue
+		}
+		for _, p := range []string{"plive", "pdel", "pdet", "pauto", "pautodel", "nosuchp"} {
+			if p == string(d.Prof) {
+				continue
+			}
+			ext := "otr-" + p + "-" + d.HumanLower
+			for _, c := range []struct{ server, channel string }{{"doh", "path"}, {"dot", "sni"}, {"doq", "sni"}} {
+				s := w.server("gp", c.server)
+				rq := g.base(s, d, fmt.Sprintf("human-cross/%s/%s/prof=%s", c.server, c.channel, p))
+				if c.channel == "path" {
+					rq.Path = "/dns-query/" + ext
+				} else {
+					rq.SNI = strings.ToUpper(ext[:5]) + ext[5:] + "." + domAlt
+				}
+				g.emit(rq)
+			}
+		}
+	}
+}
+
 func (g *gen) all() {
 	g.plain()
 	g.tls()
 	g.doh()
 	g.human()
+	g.humanCross()
 }
